@@ -10,8 +10,9 @@ U = Fraction(1, 2 ** 24)
 # ------------------------------------------------------------------------------------ oracles on the implementation
 
 def oracle_inside(ctx, c, r):
-    """start inside [0,n-1]^2 -> after every map every coordinate is inside; the coordinate the map
-    moves is in [1,n-1]; the lookup appendTracks does on the final state is defined"""
+    """start inside [0,n-1]^2 -> after every map every coordinate is inside [0,n-1] (what the property
+    asks; the tighter [1,n-1] of the code's clamp is part of the model and checked by the correspondence);
+    the lookup appendTracks does on the final state is defined"""
     n = c.n
     ok = True
     moved = False
@@ -24,11 +25,6 @@ def oracle_inside(ctx, c, r):
                     bad = "%s is %s" % (name, v)
                 elif v < 0 or v > n - 1:
                     bad = "%s = %s outside [0, %d]" % (name, fhex(float(v)), n - 1)
-            if bad is None and o["k"] != "ident" and not (o["k"] == "fp" and o["fptrack"] == 0):
-                dirx = o["k"] == "drift" or (o["k"] == "kick" and o["dir"] == "x")
-                mv = x if dirx else y
-                if mv < 1:
-                    bad = "moved coordinate %s below the clamp bound 1" % fhex(float(mv))
             if bad:
                 ctx.violation("impl-oracle", "tracked particle leaves the grid: after map %d (%s) %s" % (k, _opname(o), bad),
                               case=dict(c.replay(), failing_op=k, particle=pi),
@@ -195,7 +191,7 @@ def run_program(ctx, count):
     """inovesa itself with a tracking file holding edge particles: every record of /Particles/data must lie
     within the axes (the coordinates are looked up in the axis arrays, so they are axis values)"""
     rng = ctx.rng
-    tg = ctx.build(harness=("impl_track",), want_binary=True)
+    tg = ctx.build(harness=("impl_track", "h5cat"), want_binary=True)
     env = vp_build.xdg_env()
     for i in range(count):
         n = rng.choice([32, 48, 64])
@@ -209,8 +205,8 @@ def run_program(ctx, count):
                 for q, p in pts:
                     f.write("%r %r\n" % (q, p))
             h5 = os.path.join(td, "out.h5")
-            cmd = ["timeout", "120", tg["inovesa"], "--cl_device=-1" if False else "--gui=false", "-s", str(n), "-T", "0.5", "-N", str(steps),
-                   "-n", "2", "--tracking", tf, "--FPTrack", str(fptrack), "-o", h5, "--BunchCurrent", "1e-4", "-Z", "-1"]
+            cmd = ["timeout", "120", tg["inovesa"], "--gui", "false", "-s", str(n), "-T", "0.5", "-N", str(steps),
+                   "-n", "2", "--tracking", tf, "--FPTrack", str(fptrack), "-o", h5, "-I", "1e-4"]
             r = subprocess.run(cmd, capture_output=True, text=True, env=env, cwd=td)
             case = dict(kind="program", n=n, fptrack=fptrack, steps=steps, particles=pts, cmd=" ".join(cmd[2:]))
             if not os.path.exists(h5):
@@ -219,7 +215,6 @@ def run_program(ctx, count):
                               observed=(r.stdout + r.stderr)[-600:], sig=dict(kind="program", clause="ran", fptrack=fptrack))
                 continue
             d = subprocess.run(["timeout", "60", tg["h5cat"], h5, "--values", "--only", "/Particles/data"], capture_output=True, text=True)
-            a = subprocess.run(["timeout", "60", tg["h5cat"], h5, "--values", "--only", "/Info/AxisValues_z"], capture_output=True, text=True)
             vals = _h5vals(d.stdout)
             ctx.extra.setdefault("program_runs", []).append(dict(n=n, fptrack=fptrack, rc=r.returncode, records=len(vals)))
             if r.returncode != 0 or not vals:
@@ -238,8 +233,8 @@ def _h5vals(text):
     vals = []
     for line in text.splitlines():
         p = line.split()
-        if p and p[0] == "values":
-            vals += [parse_c(t) for t in p[1:]]
+        if len(p) > 1 and p[0] == "data" and p[1] == "/Particles/data":
+            vals += [parse_c(t) for t in p[2:]]
     return vals
 
 
@@ -256,7 +251,7 @@ def run(ctx, only_case=None):
     coq = vp_coq.full_check("C15", ctx, fams=("track",))
     q = ctx.quick()
     dis = []
-    cases = tc.gen_cases(ctx, 240 if q else 4000)
+    cases = tc.gen_cases(ctx, 600 if q else 4000)
     impl = tc.run_impl(ctx, cases)
     model = tc.run_model(ctx, cases, impl)
     for c in cases:
@@ -268,7 +263,7 @@ def run(ctx, only_case=None):
         oracle_drift(ctx, c, impl[c.cid])
     ctx.sample(cases[0].describe())
     ctx.sample(cases[1].describe())
-    blobs = tc.gen_blobs(ctx, 80 if q else 1500)
+    blobs = tc.gen_blobs(ctx, 200 if q else 1500)
     bres = tc.run_blobs(ctx, blobs)
     for b in blobs:
         d = compare_blob(b, bres[b.cid])
@@ -277,7 +272,7 @@ def run(ctx, only_case=None):
         ctx.evaluations += 1
         oracle_blob(ctx, b, bres[b.cid])
     ctx.sample(blobs[0].replay())
-    run_ensembles(ctx, 4 if q else 16, 4000 if q else 20000, 400 if q else 1200)
+    run_ensembles(ctx, 6 if q else 16, 4000 if q else 20000, 400 if q else 1200)
     if not q:
         run_program(ctx, 8)
     ctx.extra["correspondence_disagreements"] = len(dis)
